@@ -234,9 +234,10 @@ pub fn check_region(case: &str, got: &[u32], w: i32, h: i32, lines: &[Polyline],
                         // is the pixel deep inside at least one single piece, or only inside the union of
                         // overlapping pieces (every containing piece has its own outline within the margin)?
                         let deep_in_one = reg.inner.iter().any(|poly| poly_contains(poly, c, 1e-9) && own_depth(poly, c) > margin);
-                        // the listed finding is a *slight* undercoverage (outlines positioned to 1/4-1/2 px):
-                        // the pixel is still at least three quarters covered; anything emptier is a missing piece
-                        let fid = if deep_in_one || (p >> 24) < 0xc0 { None } else { Some("overlapping_pieces_interior_undercovered") };
+                        // the listed finding is a partial undercoverage (two outlines, each positioned to
+                        // 1/4-1/2 px, meeting inside the pixel): the pixel is still at least half covered;
+                        // anything emptier is a missing piece
+                        let fid = if deep_in_one || (p >> 24) < 0x80 { None } else { Some("overlapping_pieces_interior_undercovered") };
                         return Err(Violation::new(format!("{}/interior-pixel-not-fully-painted{}", what, if deep_in_one { "" } else { "/only-deep-in-union-of-overlapping-pieces" }), case.to_string(), format!("pixel ({},{}) lies inside the stroke region by {:.3} px (margin {:.3}) but is {:#010x}", x, y, depth(&exposed, c), margin, p)).finding(fid));
                     }
                 }
